@@ -90,5 +90,15 @@ CLAIMED = {
          "instance containing aws_uri_init_parse, even for a 2-byte URI, exhausted 12 GB in propositional reduction (cause not isolated); harnesses "
          "kept in h_uri.c, not run.",
     technique="CBMC bounded symbolic execution of uri.c encoders/decoder/query iteration against reference models"),
+ "C07": dict(
+    text="Task scheduler: bounded programs over 2 tasks from a scheduler state identical to what aws_task_scheduler_init produces (checked by a "
+         "separate obligation), operation kinds fixed per job from a script list (schedule_now, schedule_future, cancel, run_all, clean_up), all "
+         "timestamps symbolic 64-bit, task functions that re-entrantly schedule or cancel the other task: every invocation happens only while the "
+         "task is scheduled (exactly once), RUN only from run_all and never before its time, run-now tasks in FIFO order before timed ones, tasks "
+         "scheduled from inside a running task wait for the next run_all, cancel invokes synchronously with CANCELED, clean_up cancels everything "
+         "pending including tasks scheduled by cancelled callbacks, next-task-time equals the ghost minimum after every step.",
+    note="NOT decided: programs in which run_all or clean_up pops a task from the timed heap while another is queued (F0F1R, F0RR, ...): symbolic "
+         "execution did not finish in 100 s; the heap ordering itself is C06. Only the listed scripts are claimed.",
+    technique="CBMC bounded symbolic execution of task_scheduler.c (+ priority_queue.c, linked_list.inl) on scripted programs with ghost bookkeeping"),
 }
 NOT_APPLICABLE = {p: PENDING for p in ["C%02d" % i for i in range(1, 21)]}
